@@ -1,5 +1,6 @@
 import Hv.Driver.Core
 import Hv.Driver.Vdi
+import Hv.Driver.Vhd
 open Hv Hv.Driver
 
 def dispatch (st : St) (toks : List String) : String :=
@@ -7,6 +8,7 @@ def dispatch (st : St) (toks : List String) : String :=
   | [] => "bad-cmd"
   | cmd :: _ =>
     if cmd.startsWith "vdi." then vdiCmd st toks
+    else if cmd.startsWith "vhd." then vhdCmd st toks
     else "bad-cmd"
 
 partial def loop (h : IO.FS.Stream) (out : IO.FS.Stream) (st : St) : IO Unit := do
